@@ -160,11 +160,25 @@ _TEXT = st.text(alphabet=st.characters(min_codepoint=0x20, max_codepoint=0x2FFF,
                 min_size=1, max_size=12)
 
 
-def _cases():
-    cells = _grid()
-    return st.tuples(st.integers(0, len(cells) - 1),
+BATCH, STRIDE = 8, 349      # STRIDE is coprime with the grid size: a batch spreads over the grid
+
+
+def _batches():
+    """one Hypothesis example = one generated argument pair run on BATCH grid cells (Hypothesis
+    costs more per example than a case does; every cell still is its own case / replay file)"""
+    n = len(_grid())
+    return st.tuples(st.integers(0, n - 1),
                      st.one_of(st.integers(0, 1000), st.integers(0, 2 ** 62)),
-                     _TEXT).map(lambda t: dict(cells[t[0]], a=t[1], s=t[2]))
+                     _TEXT).map(lambda t: {"j": t[0], "a": t[1], "s": t[2]})
+
+
+def _run_batch(b, rec):
+    cells = _grid()
+    fails = []
+    for i in range(BATCH):
+        cell = cells[(b["j"] + i * STRIDE) % len(cells)]
+        fails.extend(run_case(dict(cell, a=b["a"], s=b["s"]), rec))
+    return fails
 
 
 # --------------------------------------------------------------------------- building
@@ -847,10 +861,11 @@ NSHARDS = 16
 def shards(tier):
     out = [{"kind": "enum", "i": i, "of": NSHARDS, "argsets": len(ARGSETS)}
            for i in range(NSHARDS)]
+    # n = Hypothesis examples; each runs BATCH cases
     if tier == "quick":
-        out += [{"kind": "hyp", "i": i, "n": 3000} for i in range(16)]
+        out += [{"kind": "hyp", "i": i, "n": 800} for i in range(16)]
     else:
-        out += [{"kind": "hyp", "i": i, "n": 20000} for i in range(64)]
+        out += [{"kind": "hyp", "i": i, "n": 3000} for i in range(64)]
     return out
 
 
@@ -861,7 +876,7 @@ def run_shard(shard, rec):
             for a, s in ARGSETS[:shard["argsets"]]:
                 run_case(dict(cells[j], a=a, s=s), rec)
     else:
-        rec.hyp(_cases(), lambda case: run_case(case, rec), shard["n"])
+        rec.hyp(_batches(), lambda b: _run_batch(b, rec), shard["n"])
 
 
 class _NullRec(object):
